@@ -98,9 +98,15 @@ def run(M, rec, tier, seed, k, n):
             if rng.random() < 0.2:
                 pars = dict(pars, delta=None, phi=None)
             if pars.get("delta") is None and pars.get("phi") is None and rng.random() < 0.7:
+                fed_by_main = {o_["node"] for o_ in desc["origins"] if o_["kind"] == "main"}
                 for l_ in desc["links"]:
                     if l_["N"] >= 2 and rng.random() < 0.6:
                         seg_po[(l_["id"], "L")] = np.array([round(l_["L"] * rng.uniform(0.5, 1.5), 3) for _s in range(l_["N"])])
+                    if l_["N"] >= 2 and l_["up"] not in fed_by_main and rng.random() < 0.5:
+                        # free-flow speed / critical density / exponent per segment as well
+                        for a_ in rng.sample(("v_free", "a"), rng.randint(1, 2)):
+                            if (l_["id"], a_) not in keys:
+                                seg_po[(l_["id"], a_)] = np.array([round(l_[a_] * rng.uniform(0.85, 1.15), 3) for _s in range(l_["N"])])
                 if seg_po:
                     rec.count("cases_with_per_segment_lengths")
             twins = []
@@ -128,6 +134,7 @@ def run(M, rec, tier, seed, k, n):
                     rec.count("symbolic_step_failed")
                     rec.seen("symbolic_step_failed", repr(e)[:120])
                     continue
+                tied_twin = {}
                 for compact in (0, 1, 2):
                     more_out = rng.random() < 0.5
                     ctx0 = {"desc": desc, "pars": pars, "opts": opts, "sym_type": st, "compact": compact,
@@ -140,8 +147,19 @@ def run(M, rec, tier, seed, k, n):
                         continue
                     rec.seen("configs", (st, compact, more_out, bool(keys), bool(opts)))
                     for vals, twin in zip(points, twins):
-                        if twin is None or (case.fixed and vals is not points[0]):
+                        if twin is None or ((case.fixed or case.tied) and vals is not points[0]):
                             continue  # the numbers baked into the function are those of the first point
+                        if case.tied:
+                            # one scalar drives all the limits of a link: the NumPy step is taken from those values
+                            if "twin" not in tied_twin:
+                                try:
+                                    tied_twin["twin"], _b = CC.numpy_twin_next(M, desc, case.effective(vals), pars, opts, param_override=(seg_po or None))
+                                except Exception:
+                                    tied_twin["twin"] = None
+                            twin = tied_twin["twin"]
+                            if twin is None:
+                                continue
+                            rec.count("evaluations_with_one_symbol_driving_several_limits")
                         try:
                             xn, q, qo = case.call(F, vals, compact, more_out)
                         except Exception as e:
@@ -151,7 +169,8 @@ def run(M, rec, tier, seed, k, n):
                         rec.count("function_evaluations")
                         ok = compare(rec, f"{st} compact={compact} params={'yes' if keys else 'no'} vs NumPy", desc, xn, twin,
                                      dict(ctx0, vals=vals), magnitudes(desc, vals, pars))
-                        per_type.setdefault((compact, id(vals)), {})[st] = xn
+                        if not case.tied:
+                            per_type.setdefault((compact, id(vals)), {})[st] = xn
                         if rec.counters["function_evaluations"] == 5:
                             rec.sample({"desc": desc, "vals": vals, "sym_type": st, "compact": compact,
                                         "symbolic_parameters": [list(k_) for k_ in keys], "opts": opts})
